@@ -7,21 +7,21 @@ P = "GenjaxVerif.GFI."
 E = {
     "C01": dict(title="every trace agrees with assess on its own choices and arguments", strength="partial",
                 modules=["GenjaxVerif.Props.C01"],
-                theorems=["C01_trace_assess_partial", "C01_assess_rebuilds_trace", "C01_refuted"],
+                theorems=["C01_trace_assess_partial", "C01_trace_assess_own_args_partial", "C01_assess_rebuilds_trace", "C01_refuted"],
                 props=["C01"], opts={"assessSelf": 2.0}, focus={}),
     "C02": dict(title="scores are the exact joint log-density defined by the program", strength="partial",
                 modules=["GenjaxVerif.Props.C02"],
-                theorems=["C02_assess_is_joint_logdensity", "C02_leaf_logdensity", "C02_trace_score_eq_assess_partial",
+                theorems=["C02_assess_is_joint_logdensity", "C02_score_is_sum_over_live_choices", "C02_leaf_logdensity", "C02_trace_score_eq_assess_partial",
                           "C02_masked_off_contributes_zero", "C02_simulate_weight_zero"],
                 props=["C02", "C22"], opts={"assess": 2.0, "assessSelf": 1.5, "upd": 0.5, "regen": 0.5}, focus={}),
     "C05": dict(title="update installs the constraint and weighs by the score change", strength="partial",
                 modules=["GenjaxVerif.Props.C05"],
-                theorems=["C05_update_weight", "C05_update_installs_constraint", "C05_update_keeps_unconstrained", "C05_update_shape", "C05_leaf_update"],
+                theorems=["C05_update_weight", "C05_new_trace_holds_new_args", "C05_update_installs_constraint", "C05_update_keeps_unconstrained", "C05_update_shape", "C05_leaf_update"],
                 props=["C05"], opts={"upd": 4.0, "regen": 0.2, "proj": 0.2, "bwd": 0.2, "max_ops": 4}, focus={}),
     "C07": dict(title="regenerate resamples exactly the selected choices", strength="partial",
                 modules=["GenjaxVerif.Props.C07"],
-                theorems=["C07_regenerate_weight", "C07_unselected_unchanged", "C07_leaf_regenerate", "C07_mask_switch_not_supported"],
-                props=["C07"], opts={"regen": 4.0, "upd": 0.3, "proj": 0.2},
+                theorems=["C07_regenerate_weight", "C07_unselected_unchanged", "C07_leaf_regenerate", "C07_mask_switch_not_supported", "C07_vmap_not_supported"],
+                props=["C07", "C01"], opts={"regen": 4.0, "upd": 0.3, "proj": 0.2, "assessSelf": 1.5},
                 focus={"vmap": 0.2, "switch": 0.2, "mask": 0.2, "repeat": 0.2, "orelse": 0.2,
                        "masked_iterate": 0.1, "masked_iterate_final": 0.1, "scan": 2.0, "int": 2.0}),
     "C10": dict(title="project splits the score along a selection", strength="full",
@@ -54,19 +54,19 @@ E = {
                 modules=["GenjaxVerif.Props.C11"],
                 theorems=["C11_vmap_elementwise", "C11_element_input", "C11_indexed_constraint_only_its_element",
                           "C11_choices_under_index", "C11_zero_length", "C11_repeat_def", "C11_repeat_element_args",
-                          "C11_index_request_edits_one_element", "C11_index_update_weight"],
+                          "C11_index_request_edits_one_element", "C11_index_update_weight", "C11_slice_follows_axis"],
                 props=["C01", "C02", "C03", "C05", "C11"], opts={"upd": 1.5, "gen": 1.5, "regen": 0.1, "masked": 0.1, "idx": 2.5},
-                focus={"vmap": 10.0, "repeat": 6.0}, zero_len=0.12),
+                focus={"vmap": 10.0, "repeat": 6.0, "axis1": 0.3}, zero_len=0.12),
     "C12": dict(title="scan and its derived combinators match the documented Python loops", strength="full",
                 modules=["GenjaxVerif.Props.C12"],
                 theorems=["C12_scan_is_the_loop", "C12_final_carry", "C12_iteration_input", "C12_derived_defs",
                           "C12_derived_return_maps", "C12_index_edit"],
                 props=["C01", "C02", "C03", "C05", "C07", "C11"], opts={"upd": 1.5, "gen": 1.0, "regen": 1.0, "idx": 2.5},
-                focus={"scan": 8.0, "accumulate": 3.0, "reduce": 3.0, "iterate": 3.0, "iterate_final": 3.0}),
-    "C13": dict(title="switch, or_else and mix follow exactly one branch consistently", strength="partial",
+                focus={"scan": 8.0, "accumulate": 3.0, "reduce": 3.0, "iterate": 3.0, "iterate_final": 3.0, "walk": 0.5}),
+    "C13": dict(title="switch, or_else and mix follow exactly one branch consistently", strength="partial", extras="c13_extra",
                 modules=["GenjaxVerif.Props.C13"],
                 theorems=["C13_switch_is_branch", "C13_switch_update_same_branch", "C13_switch_args", "C13_orElse_def",
-                          "C13_orElse_index", "C13_out_of_range_not_modelled"],
+                          "C13_orElse_index", "C13_clamp"],
                 props=["C01", "C02", "C03", "C05", "C10"], opts={"upd": 1.5, "gen": 1.5, "regen": 0.0, "proj": 1.0, "bwd": 0.0},
                 focus={"switch": 10.0, "orelse": 6.0, "vmap": 2.0}),
     "C15": dict(title="dimap, map and contramap only transform arguments and return values", strength="full",
@@ -125,7 +125,7 @@ FOCUS = {focus!r}
 
 def run(ctx):
     gfi_check.standard_run(ctx, props=set(PROPS), focus=FOCUS, opts=OPTS, prop_id="{pid}", zero_len={zero_len})
-
+{extras_call}
 
 def replay(ctx, payload):
     gfi_check.replay_case(ctx, payload, set(PROPS))
@@ -147,5 +147,7 @@ for pid, d in E.items():
     d = dict(d)
     d["theorems"] = [t if t.startswith("GenjaxVerif.") else P + t for t in d["theorems"]]
     d.setdefault("zero_len", 0.0)
+    ex = d.pop("extras", None)
+    d["extras_call"] = (f"    from harness import common, {ex}\n\n    {ex}.run_extras(ctx, common)\n" if ex else "")
     (V / "harness" / "props" / f"{pid.lower()}.py").write_text(TEMPLATE.format(pid=pid, **d))
 print("generated", sorted(E))
